@@ -123,6 +123,25 @@ class Model:
                 body = out
             for st in body:
                 if isinstance(st, ast.For) and any(isinstance(c, ast.Call) and dotted(c.func) == "register_element_cls" for c in ast.walk(st)):
+                    # a table that is not a plain literal (`{**dict.fromkeys(("c:max", "c:min"), CT_Double), ...}.items()`): folded
+                    it = st.iter
+                    pairs = None
+                    if isinstance(it, ast.Call) and isinstance(it.func, ast.Attribute) and it.func.attr == "items" and not it.args:
+                        tb = self.prog.const(it.func.value, m)
+                        if isinstance(tb, dict):
+                            pairs = list(tb.items())
+                    else:
+                        tb = self.prog.const(it, m)
+                        if isinstance(tb, (tuple, list)) and all(isinstance(x, (tuple, list)) and len(x) == 2 for x in tb):
+                            pairs = list(tb)
+                    body_ = [x for x in st.body if not (isinstance(x, ast.Expr) and isinstance(x.value, ast.Constant))]
+                    simple = len(body_) == 1 and isinstance(body_[0], ast.Expr) and isinstance(body_[0].value, ast.Call) \
+                        and dotted(body_[0].value.func) == "register_element_cls" and isinstance(st.target, ast.Tuple) and len(st.target.elts) == 2 \
+                        and [dotted(a) for a in body_[0].value.args] == [dotted(e) for e in st.target.elts] and not body_[0].value.keywords
+                    if pairs is not None and simple and all(isinstance(k, str) and isinstance(v, ClassRef) for k, v in pairs):
+                        for k, v in pairs:
+                            self.registry.append((k, v.cls, m, st.lineno))
+                        continue
                     raise AnalysisError("%s:%d registration loop over something that is not a literal" % (m.relpath, st.lineno))
                 if isinstance(st, ast.Expr) and isinstance(st.value, ast.Call):
                     c = st.value
